@@ -12,6 +12,7 @@ plain cast; both are covered: the assignment by `cast_componentwise`, the constr
 `direction_cast_then_normalise`.
 -/
 import PhQVerif.Theory.Access
+import PhQVerif.Theory.Round
 import PhQVerif.Checkers
 import PhQVerif.Generated.Obl_C16cast
 import PhQVerif.Generated.Obl_C16dir
@@ -101,7 +102,46 @@ theorem direction_cast_then_normalise :
     rw [DTree.beq_eq hchk, DTree.valuesF_subst]
     rfl
 
+/-- Every format of the library has at least one significand bit and a positive `emax`. -/
+theorem fm_ok (fm : Fm) : 1 ≤ fm.fmt.p ∧ 1 ≤ fm.fmt.emax := by cases fm <;> decide
+
+/-- **C16 (widening then narrowing is the identity), arithmetic core.** For formats `f ⊆ g` and every
+datum `x` of format `f` (every IEEE value of that format, including subnormals, zeros, infinities
+and NaN): converting to `g` and back returns `x` itself — bit for bit, for all `x`. -/
+theorem widen_narrow_core (f g : Fm) (h : f.fmt.le g.fmt) (x : Fl) (hx : Fl.Canonical f.fmt x) :
+    Fl.cast f.fmt (Fl.cast g.fmt x) = x :=
+  Fl.cast_cast_of_le f.fmt g.fmt (fm_ok f).1 (fm_ok f).2 h x hx
+
+/-- **C16 (widening then narrowing is the identity), for the converting members.** Take any
+converting constructor `wide` into format `g` and any converting constructor `narrow` into format
+`f ⊆ g` that are plain casts. Feed `wide` any values of format `f`, and feed its outputs to `narrow`:
+slot `i` of the result is the original slot `i`, for all values. -/
+theorem widen_then_narrow_is_identity :
+    ∀ wide ∈ quantityEntries, ∀ narrow ∈ quantityEntries, IsPlainCast wide → IsPlainCast narrow →
+      wide.kind = .castCtor → narrow.kind = .castCtor → narrow.fm.fmt.le wide.fm.fmt →
+      ∀ ow on, wide.numOuts = some ow → narrow.numOuts = some on →
+      ∀ (L : Libm) (env : Nat → Fl), (∀ i, Fl.Canonical narrow.fm.fmt (env i)) →
+      ∀ i ew en, ow[i]? = some ew → on[i]? = some en →
+        en.evalF L (fun j => match ow[j]? with | some e => e.evalF L env | none => Fl.nan) = env i := by
+  intro wide hw narrow hn pw pn kw kn hle ow on how hon L env hcan i ew en hiw hin
+  obtain ⟨ow', how', hW⟩ := cast_componentwise wide hw pw
+  obtain ⟨on', hon', hN⟩ := cast_componentwise narrow hn pn
+  rw [how] at how'; cases how'
+  rw [hon] at hon'; cases hon'
+  rcases hW with ⟨_, _, hW⟩ | ⟨hk, _⟩
+  · rcases hN with ⟨_, _, hN⟩ | ⟨hk, _⟩
+    · rw [hN i en hin L, hiw]
+      simp only
+      rw [hW i ew hiw L env]
+      exact Fl.cast_cast_of_le _ _ (fm_ok _).1 (fm_ok _).2 hle _ (hcan i)
+    · rw [kn] at hk; cases hk
+  · rw [kw] at hk; cases hk
+
 /-! ### Non-vacuity -/
+
+example : F32.le F64 ∧ F32.le F80 ∧ F64.le F80 := ⟨Fl.F32_le_F64, Fl.F32_le_F80, Fl.F64_le_F80⟩
+example : Fl.Canonical F32 (Fl.fin false (2 ^ 23 + 1) (-20)) := by
+  unfold Fl.Canonical; decide
 
 example : IsPlainCast (f32.«Velocity::ctor(Velocity<Othernum>)[U=64]») := by
   refine ⟨Or.inl (by decide), ?_⟩
